@@ -47,8 +47,53 @@ def derives_from_column(fn, operand):
     return col, conv, "+".join(sorted(which))
 
 
+QUICK_CONFIG = "full"  # the rules read the LSP crate, which only the `full` extraction contains
+
+
+def r2_comprehension_scope(ctx, F):
+    """name resolution agreement, comprehension clause: the compiler resolves the iterable of the FIRST `for` of a
+    comprehension in the enclosing scope and everything else in the comprehension's own scope
+    (scope.rs: resolve_idents_in_for_clause(first_for) dominates enter_compr). The IDE's binder (starlark_lsp/bind.rs:
+    comprehension) must do the same: it visits `for_.over` into the enclosing accumulator (its `res` parameter), not
+    into the inner scope it builds. Otherwise go-to-definition on `x` in `[x for x in x]` lands on the loop variable
+    although the program reads the outer x."""
+    g = F.one(r"eval::compiler::scope::ModuleScopeBuilder::<'f>::resolve_idents_in_compr$")
+    fc = [c for c in g.calls if c.bb not in g.cleanup and re.search(r"::resolve_idents_in_for_clause$", c.name)]
+    en = [c for c in g.calls if c.bb not in g.cleanup and re.search(r"::enter_compr$", c.name)]
+    ref_ok = bool(fc) and len(en) == 1 and any(
+        "_3" in locals_in(" ".join(c.args)) or any(o == ("param", "_3") for a in c.args for o in origins(g, a, pass_calls=None))
+        for c in fc if g.dominates(c.bb, en[0].bb) and c.bb != en[0].bb and c.bb not in g.after(en[0].bb))
+    ctx.check(ref_ok, "C19.R2", "reference:compiler-first-for-in-outer-scope",
+              "the compiler resolves the first for clause before entering the comprehension scope",
+              "the compiler's scope resolver no longer resolves the first for clause of a comprehension before "
+              "enter_compr: the reference the IDE rule compares against has changed", fn=g)
+    f = F.one(r"starlark_lsp::bind::comprehension$")
+    bodies = [f] + [h for c in f.calls if not c.indirect for h in [F.fns.get(c.callee_uid())]
+                    if h is not None and h.crate == "starlark_lsp" and h.uid != f.uid and not
+                    re.search(r"bind::(expr|expr_lvalue)$", h.qpath)]
+    outer_visit = False
+    for c in f.calls:
+        if c.bb in f.cleanup or not re.search(r"starlark_lsp::bind::\w+$", c.name) or len(c.args) < 2 \
+                or re.search(r"bind::expr_lvalue$", c.name):
+            continue
+        a0 = {o for o in origins(f, c.args[0], pass_calls=None)}
+        a1 = {o for o in origins(f, c.args[1], pass_calls=None)}
+        # first argument: a field of the first clause (parameter 1); second: the enclosing accumulator (parameter 3)
+        if ("param", "_1") in a0 and ("param", "_3") in a1 and not any(o[0] == "call" for o in a1):
+            outer_visit = True
+    ctx.check(outer_visit, "C19.R2", "ide:first-iterable-in-enclosing-scope",
+              "bind::comprehension visits the first iterable into the enclosing scope's bindings",
+              "starlark_lsp's binder no longer visits the iterable of the first `for` clause into the enclosing scope "
+              "(parameter `res`): it is resolved inside the comprehension's own scope, unlike the compiler - "
+              "go-to-definition / hover on `x` in `[x for x in x]` answer with the loop variable", fn=f)
+
+
 def run(ctx):
     F = ctx.facts("core")
+    if any(f.crate == "starlark_lsp" for f in F.fns.values()):
+        r2_comprehension_scope(ctx, F)
+    else:
+        ctx.bad("C19.R2", "anchor:starlark_lsp", "anchor-missing: the extraction does not contain the starlark_lsp crate")
     n = 0
     for f in F.fns.values():
         if f.crate not in ("starlark_syntax", "starlark_lsp", "starlark", "starlark_bin"):
